@@ -278,3 +278,104 @@ def suite_connect(rng: random.Random, tier: str) -> Suite:
 
 
 ALL_WORLD = {"versions": suite_versions, "connect": suite_connect}
+
+
+# ------------------------------------------------------------------ C06: cycle detection / triggering ancestors
+
+CYC_PLACEMENTS = [[[], [], []], [[0], [0], [0]], [[0], [0], []], [[0], [1], []], [[0, 0], [0, 0], [0]], [[0, 0], [0, 1], [0]],
+                  [[], [0], [0, 0]], [[0], [0], [1]]]
+CONN_KINDS = ["plain", "ts", "weak", "async"]
+
+
+def gen_graph(rng: random.Random, n: int, placement, max_conns: int):
+    conns = []
+    for _ in range(rng.randint(1, max_conns)):
+        a, b = rng.randrange(n), rng.randrange(n)
+        if a == b and rng.random() < 0.7:
+            b = (a + 1) % n
+        kind = rng.choice(CONN_KINDS)
+        conns.append({"src": a, "dst": b, "kind": kind, "dattr": rng.choice(["nt", "tr"])})
+    return {"placement": placement, "conns": conns}
+
+
+def build_graph_world(g, cache=True):
+    w = mosaik.World({"G": {"python": "verif_stubs:GStub"}}, asyncio_loop=asyncio.new_event_loop(), skip_greetings=True, cache=cache)
+    ents = start_in_groups(w, g["placement"])
+    lines = [f"w.new {int(cache)}"] + [f"w.start hybrid {s_list(p)} {MODEL_DESC_LINE}" for p in g["placement"]]
+    results = []
+    with warnings.catch_warnings():
+        warnings.simplefilter("ignore")
+        for c in g["conns"]:
+            kw = {}
+            ts = 1 if c["kind"] == "ts" else 0
+            weak = c["kind"] == "weak"
+            if ts:
+                kw["time_shifted"] = 1
+            if weak:
+                kw["weak"] = True
+            if ts or weak:
+                kw["initial_data"] = {"pe": 1}
+            if c["kind"] == "async":
+                kw["async_requests"] = True
+            try:
+                w.connect(ents[c["src"]], ents[c["dst"]], ("pe", c["dattr"]), **kw)
+                r = "ok"
+            except ScenarioError:
+                r = "ScenarioError"
+            results.append(r)
+            lines.append(f"w.connect {c['src']} 0 {c['dst']} 0 1 2 {AID[c['dattr']]} {int(c['kind'] == 'async')} {ts} {int(weak)} " +
+                         ("1 2 1" if (ts or weak) else "0"))
+    return w, lines, results
+
+
+def cycle_result(w):
+    try:
+        w.ensure_no_dataflow_cycles()
+        return "ok", None
+    except ScenarioError as e:
+        import re
+        path = [int(x) for x in re.findall(r"sid='S(\d+)'", str(e))]
+        return "cycle", path
+    except AssertionError:
+        return "AssertionError", None
+
+
+def anc_rows(w):
+    try:
+        w.cache_triggering_ancestors()
+    except AssertionError:
+        return "AssertionError"
+    rows = []
+    for sid, sim in sorted(w.sims.items(), key=lambda kv: int(kv[0][1:])):
+        items = sorted((int(k.sid[1:]), v) for k, v in sim.triggering_ancestors.items())
+        rows.append(f"{len(items)}" + "".join(f" {k} {s_ti(v)}" for k, v in items))
+    return " ; ".join(rows)
+
+
+def suite_cycles(rng: random.Random, tier: str) -> Suite:
+    s = Suite("cycles")
+    n_graphs = 700 if tier == "quick" else 12000
+    s.rule = (f"{n_graphs} random connection multigraphs over 3 simulators in 8 group placements (flat, one group, nested, siblings, cousins), "
+              "1-5 connections of kind plain / time-shifted / weak / async into trigger or non-trigger inputs (self-connections included), "
+              "two orders of worklist choice on the model side; compared: ensure_no_dataflow_cycles accepts / rejects / asserts, and the "
+              "triggering-ancestor table with its minimal delays")
+    s.graphs = []
+    for _ in range(n_graphs):
+        g = gen_graph(rng, 3, rng.choice(CYC_PLACEMENTS), 5)
+        w, lines, results = build_graph_world(g)
+        try:
+            for l, r in zip(lines, ["ok"] * (1 + len(g["placement"])) + results):
+                s.add(l, r, "build")
+            res, path = cycle_result(w)
+            s.graphs.append((g, res, path))
+            # the model must reach the same verdict for different pop orders
+            for orc in ("0", "3 2 1 5", "7 1 1 1 2 0 3 2"):
+                s.add(f"w.cyc {orc}", res if res != "cycle" else "cycle", "cyc:" + res)
+            s.add("w.anc 0", anc_rows(w), "anc")
+        finally:
+            close_world(w)
+    s.post_model = lambda a: "cycle" if a.startswith("cycle ") else a
+    return s
+
+
+ALL_WORLD["cycles"] = suite_cycles
